@@ -23,7 +23,7 @@ class _Stop(BaseException):
     pass
 
 
-def replay(seq, N, mode="ess"):
+def replay(seq, N, mode="ess", values=0, want_u=False):
     """Drive the real sampler through len(seq) warm-up iterations with a scripted -inf pattern."""
     import numpy as np
     from tempest import Sampler
@@ -37,7 +37,7 @@ def replay(seq, N, mode="ess"):
         t, j = divmod(i, N)
         if t >= T:
             raise _Stop()
-        return -np.inf if j >= seq[t] else -0.25 * (i + 1)
+        return -np.inf if j >= seq[t] else (-0.25 * (i + 1) if values == 0 else -6.0 + 0.53 * ((7 * i) % 11))
 
     kw = {}
     if mode == "vv":
@@ -46,7 +46,7 @@ def replay(seq, N, mode="ess"):
         def llv(X):
             return np.array([ll(x) for x in X])
         kw["vectorize"] = True
-    s = Sampler(prior_transform=lambda u: u, log_likelihood=(llv if mode == "vector" else ll), n_dim=1, n_particles=N, ess_ratio=float(T + 5), clustering=False, **kw)
+    s = Sampler(prior_transform=lambda u: u, log_likelihood=(llv if mode == "vector" else ll), n_dim=1, n_particles=N, ess_ratio=float(T + 5), clustering=False, random_state=11, **kw)
     try:
         s.run(n_total=8, progress=False)
     except _Stop:
@@ -55,6 +55,8 @@ def replay(seq, N, mode="ess"):
         st["raised"] = repr(ex)
     logz = [float(z) for z in s.state._history["logz"]]
     logl = [np.asarray(b, dtype=float) for b in s.state._history["logl"]]
+    if want_u:
+        return logz[:T], logl[:T], [np.asarray(b, dtype=float).copy() for b in s.state._history["u"]][:T]
     return logz[:T], logl[:T]
 
 
@@ -87,6 +89,7 @@ def main():
     # ---- binding B: replay every enumerated sequence
     replayed = 0
     nontriv = 0
+    donors_checked = 0
     modes = ["ess", "vv", "vector"]
     for si, seq in enumerate(seqs):
       for mode in (modes if ck.tier == "thorough" else [modes[si % 3], "ess"][: 2 if si % 3 else 1]):
@@ -108,6 +111,20 @@ def main():
                              {"a": list(seq), "N": N, "logz": logz})
                 break
         ck.sample({"a": list(seq), "N": N, "recorded_logz": logz}, limit=3)
+        # the replacement of zero-likelihood draws is a function of WHICH draws are dead, not of the likelihood VALUES of the
+        # survivors (the stored batch stays a sample of the prior restricted to the support): same seed, same dead pattern, other
+        # finite values -> the same stored positions
+        if mode == "ess" and any(0 < a < N for a in seq):
+            import numpy as _np
+
+            _, _, ua = replay(seq, N, mode, values=0, want_u=True)
+            _, _, ub = replay(seq, N, mode, values=1, want_u=True)
+            donors_checked += 1
+            if len(ua) != len(ub) or any(x.shape != y.shape or not _np.array_equal(x, y) for x, y in zip(ua, ub)):
+                ck.violation("replay:refill-depends-on-likelihood-values",
+                             f"stored prior batches differ between two runs with the same seed and the same zero-likelihood pattern a={list(seq)} "
+                             f"but other finite likelihood values: the replacement of dead draws depends on the survivors' likelihood",
+                             {"a": list(seq), "N": N, "u_a": [x.ravel().tolist() for x in ua], "u_b": [x.ravel().tolist() for x in ub]})
     # ---- known-finding probe: a prior batch in which every draw has zero likelihood
     logz, logl = replay((0, N), N)
     if logl and not all(math.isfinite(v) for v in logl[0]):
@@ -147,6 +164,7 @@ def main():
     cov["transitions"] += trans
     cov.update({
         "priorphase_sequences_replayed": replayed,
+        "refill_independent_of_likelihood_values_pairs": donors_checked,
         "traces_validated_against_impl": replayed + sc["system_runs"],
         "evaluations": replayed + sc["system_events_validated"],
         "distinct_nontrivial": nontriv + sc["system_nontrivial"],
